@@ -113,14 +113,41 @@ def run():
         chk.cov["table_users"] = res.get("table_users")
         if res.get("table_routes_unaddressed"):
             chk.notes.append("table routes no concrete path resolved to: %s" % res["table_routes_unaddressed"])
-        # 3. TLC judges every record
+        # 3. TLC judges every record.  Binding self-test in the same run: three extra records are appended - an authorized
+        #    dispatch (must be accepted), the same kind of dispatch without credentials on a must-authenticate route and a
+        #    weakened route record (both must be rejected); they are judged apart from the real ones.
+        lines = open(log).read().splitlines()
+        recs = [json.loads(l) for l in lines]
+        nreal = len(lines)
+        rng = random.Random(vf.SEED)
+        extra = []
+        if not replay:
+            c1 = [i for i, r_ in enumerate(recs) if r_["kind"] == "req" and r_["req"]["form"] == "none" and r_["flags"]["ma"]
+                  and not r_["flags"]["lw"] and not r_["invoked"]]
+            c2 = [i for i, r_ in enumerate(recs) if r_["kind"] == "build" and r_["calls"] and r_["calls"][-1]["op"] == "Authentication"
+                  and r_["calls"][-1]["b"] and r_["after"][-1]["ma"] and not r_["after"][-1]["lw"]]
+            good = [i for i, r_ in enumerate(recs) if r_["kind"] == "req" and r_["invoked"] and r_["req"]["form"] in ("basic_right", "token_valid")
+                    and "ego.root" in r_["req"]["subperms"]]
+            if not c1 or not c2 or not good:
+                raise vf.NoVerdict("self-test: no suitable records in the log (driver too weak)")
+            a, b, c = dict(recs[rng.choice(c1)]), json.loads(json.dumps(recs[rng.choice(c2)])), recs[rng.choice(good)]
+            a["invoked"], a["status"] = True, 200                 # handler ran without credentials on a must-authenticate route
+            b["after"][-1]["ma"] = False                          # Authentication(true) left the record not requiring it
+            extra = [dict(x, st=True) for x in (c, a, b)]
+            log = vf.write_ndjson(os.path.join(sd, "io-judged.ndjson"), recs + extra)
         rep = _judge(chk, sd, log, "contract over the log of the real router")
+        if rep["n"] != nreal + len(extra):
+            raise vf.NoVerdict("contract saw %s records, log has %d" % (rep["n"], nreal + len(extra)))
         if rep["notwf"]:
             raise vf.NoVerdict("%d logged records are not cases of the specification (driver error), first at line %s"
                                % (len(rep["notwf"]), sorted(rep["notwf"])[0]))
-        lines = open(log).read().splitlines()
-        if rep["n"] != len(lines):
-            raise vf.NoVerdict("contract saw %s records, log has %d" % (rep["n"], len(lines)))
+        if extra:
+            st = sorted(int(x["idx"]) - nreal for x in rep["bad"] if int(x["idx"]) > nreal)
+            if st != [2, 3]:
+                raise vf.NoVerdict("binding self-test failed: of the appended records (authorized, unauthorized, weakened) the contract rejected %s" % st)
+            rep["bad"] = [x for x in rep["bad"] if int(x["idx"]) <= nreal]
+            chk.cov["binding_selftest"] = ("a dispatch without credentials on a must-authenticate route and a weakened route record are both rejected, "
+                                           "an authorized dispatch is accepted (appended to the judged log, judged apart)")
         by = {}
         for b in rep["bad"]:
             by.setdefault(b["key"], []).append(int(b["idx"]))
@@ -170,25 +197,6 @@ def run():
             if rr.violated != "NeverInvokedWithPerms":
                 raise vf.NoVerdict("witness: no authorized request reaches a handler in the model (%s %s)" % (rr.violated, rr.error))
             chk.add_tlc(rr, "witness: an authorized request reaches a handler guarded by permissions", count_states=False)
-            # 5. binding self-test: known-bad records must be rejected, and only those
-            rng = random.Random(vf.SEED)
-            recs = [json.loads(l) for l in lines]
-            c1 = [i for i, r_ in enumerate(recs) if r_["kind"] == "req" and r_["req"]["form"] == "none" and r_["flags"]["ma"]
-                  and not r_["flags"]["lw"] and not r_["invoked"]]
-            c2 = [i for i, r_ in enumerate(recs) if r_["kind"] == "build" and r_["calls"] and r_["calls"][-1]["op"] == "Authentication"
-                  and r_["calls"][-1]["b"] and r_["after"][-1]["ma"] and not r_["after"][-1]["lw"]]
-            badidx = {int(b["idx"]) for b in rep["bad"]}
-            good = [i for i, r_ in enumerate(recs) if r_["kind"] == "req" and r_["invoked"] and (i + 1) not in badidx]
-            if not c1 or not c2 or not good:
-                raise vf.NoVerdict("self-test: no suitable records in the log")
-            a, b, c = dict(recs[rng.choice(c1)]), json.loads(json.dumps(recs[rng.choice(c2)])), recs[rng.choice(good)]
-            a["invoked"], a["status"] = True, 200                 # handler ran without credentials on a must-authenticate route
-            b["after"][-1]["ma"] = False                          # Authentication(true) left the record not requiring it
-            st = vf.write_ndjson(os.path.join(sd, "selftest.ndjson"), [c, a, b])
-            rs = _judge(chk, sd, st, None)
-            if sorted(int(x["idx"]) for x in rs["bad"]) != [2, 3] or rs["notwf"]:
-                raise vf.NoVerdict("binding self-test failed: corrupted records judged %s" % json.dumps(rs)[:600])
-            chk.cov["binding_selftest"] = "a dispatch without credentials on a must-authenticate route and a weakened route record are both rejected; an authorized dispatch is accepted"
             for i in (rng.choice(good), rng.choice(c1)):
                 chk.sample({"kind": "logged record judged by Gate_Trace", "record": recs[i]})
             chk.sample({"kind": "generated declaration", "calls": seqs[rng.randrange(len(seqs))]["calls"]})
